@@ -3,7 +3,7 @@ import itertools
 import re
 import sympy
 
-from .. import facts, ev, nf, relations, shapes, quant
+from .. import facts, ev, nf, relations, shapes, quant, errdom
 from ..facts import short, strip_cvref
 from ..frontend import NUMERIC
 
@@ -39,6 +39,35 @@ class Fn:
         return [conv(t) for _, t in ev.flatten(val)]
 
 
+def evaluate_value(F, fn, names, values=None):
+    """Evaluate fn with operands named `names`; operands listed in `values` (name -> evaluator value) are passed as
+    those values instead of fresh symbols. Returns (Evaluator, result value)."""
+    values = values or {}
+    f = fn.f
+    E = ev.Evaluator(F)
+    this_lv = None
+    ops = list(names)
+    if fn.r.kind in ("op", "member"):
+        tn = fn.args[0]
+        v = values.get(ops[0]) if ops[0] in values else E.symbolic(tn, ops[0])
+        this_lv = E.new_loc(v, "this")
+        ops, targs = ops[1:], fn.args[1:]
+    elif fn.r.kind == "ctor":
+        this_lv = E.new_loc(E.blank(fn.res), "this")
+        targs = fn.args
+    else:
+        targs = fn.args
+    args = []
+    for nme, p in zip(ops, f["params"]):
+        pt = F.T(p["t"])
+        v = values[nme] if nme in values else E.symbolic(pt, nme)
+        lv = E.new_loc(v, "arg")
+        args.append(lv if facts.is_ref(pt) else v)
+    res = E.call(f["id"], this_lv, args)
+    val = E.load(this_lv) if fn.r.kind == "ctor" else E.rv(res)
+    return E, val
+
+
 def slot_symbols(F, tname, name):
     E = ev.Evaluator(F)
     conv = nf.Conv(positive=True)
@@ -49,12 +78,14 @@ def run(chk):
     chk.level = "other"
     chk.technique = ("inverse pairs enumerated from the resolved signatures of all relation functions; each pair composed symbolically "
                      "(substitution of algebraic normal forms, positive symbols) and compared with the identity")
+    chk.rule("R2", "where the composed computation contains no subtraction of rounded quantities, its a-priori forward error (standard model, first order) is <= 24 ulps for all positive inputs")
     chk.rule("R1", "G(F(a, b...), b...) == a algebraically for every pair F: (A,B..)->C, G: (C,B..)->A the library declares")
-    chk.assumptions += ["the algebraic inverse law is a necessary condition (a non-identity rational function differs from the identity on an open set of positive inputs); the 'few ulps' clause is NOT decided",
+    chk.assumptions += ["the algebraic inverse law is a necessary condition (a non-identity rational function differs from the identity on an open set of positive inputs); the 'few ulps' clause is decided only by R2's a-priori bound where no cancellation can occur",
                         "pairs involving a direction operand (unit-norm constraint) or a projection (fewer result slots than the recovered operand) are not inverse pairs and are skipped"]
     n_pairs = 0
     skipped = 0
     ambiguous = 0
+    decided, undecided, worst = [0], [0], {}
     seen_pairs = set()
     for T in NUMERIC:
         F = facts.load(T, chk.tier)
@@ -157,7 +188,42 @@ def run(chk):
                     chk.inconclusive("R1", inst, "%s: %s" % (inc[0][0].label, inc[0][2]), inc[0][3])
                 else:
                     chk.holds("R1", inst, "inverted by %s" % ", ".join(g[0].label for g in good)[:300], good[0][3] if good else "")
+                    # R2: a-priori forward error bound of the composed computation (positive inputs)
+                    try:
+                        Gfn = good[0][0]
+                        EF, valF = evaluate_value(F, Ffn, fnames)
+                        cands = [[]]
+                        for a in Gfn.args:
+                            opts = (["c"] if a == Ffn.res else []) + pool.get(a, [])
+                            cands = [c + [o] for c in cands for o in opts]
+                        cands = [c for c in cands if sorted(c) == want_multiset]
+                        best = None
+                        for c in cands:
+                            EG, valG = evaluate_value(F, Gfn, c, {"c": valF})
+                            terms = [t for _, t in ev.flatten(valG)]
+                            conv = nf.Conv(positive=True)
+                            if len(terms) == len(target) and all(nf.equal(conv(t), y) for t, y in zip(terms, target)):
+                                li = dict(EF.leaf_info)
+                                li.update(EG.leaf_info)
+                                signs = {n: ("+" if shapes.shape_of_type(F, (info.get("qtype") or T)) == "scalar" else "?") for n, info in li.items()}
+                                bs = [errdom.err(t, T, signs)[0] for t in terms]
+                                best = None if any(b is None for b in bs) else max(bs)
+                                break
+                        if best is None:
+                            undecided[0] += 1
+                        elif best > 24:
+                            chk.violated("R2", inst, "a-priori forward error bound of the round trip is %s u (> 24 ulps)" % float(best), good[0][3])
+                        else:
+                            decided[0] += 1
+                            worst[T] = max(worst.get(T, 0.0), float(best))
+                    except ev.Inconclusive:
+                        undecided[0] += 1
     chk.floor("inverse pairs (x3 numeric types)", n_pairs, 900)
     chk.coverage["pairs"] = n_pairs
+    chk.coverage["round_trip_error_bound_decided"] = decided[0]
+    chk.coverage["round_trip_error_bound_undecided_cancellation"] = undecided[0]
+    chk.coverage["round_trip_error_bound_max_u"] = worst
+    if decided[0]:
+        chk.holds("R2", "a-priori round-trip bounds", "%d round trips without cancellation: relative error <= %s u; %d with a subtraction of rounded values not decided" % (decided[0], worst, undecided[0]), "")
     chk.coverage["skipped_projection_or_branching"] = skipped
     chk.coverage["ambiguous_same_type_signatures_without_inverse"] = ambiguous
